@@ -296,6 +296,50 @@ def index_by_enumeration(n, cx, body, N):
 INLINE_CRATES = ("anstyle", "anstyle_parse", "anstyle_lossy", "anstream", "anstyle_wincon", "anstyle_query", "colorchoice")
 
 
+SUBSLICE_YIELDERS = ("anstream::adapter::strip::StripBytes::strip_next", "anstream::adapter::strip::StripStr::strip_next")
+
+
+def _res_local(e, cx):
+    e = hir.peel(e)
+    seen = 0
+    while isinstance(e, dict) and e.get("k") == "local" and (e["name"], e.get("id")) in cx.lets and (e["name"], e.get("id")) not in cx.assigned and seen < 6:
+        e = hir.peel(cx.lets[(e["name"], e.get("id"))])
+        seen += 1
+    return e
+
+
+def _ptr_of(e, cx):
+    """`X.as_ptr() [as usize]` through immutable locals -> X (resolved), else None"""
+    e = _res_local(e, cx)
+    while isinstance(e, dict) and e.get("k") == "cast":
+        e = _res_local(e["e"], cx)
+    if isinstance(e, dict) and hir.is_call(e, "as_ptr") and len(e["args"]) == 1:
+        return _res_local(e["args"][0], cx)
+    return None
+
+
+def subslice_pointers(lo, hi, cx, body):
+    """(lo, hi) = (B.as_ptr(), P[..].as_ptr()) where P is the loop variable of `for P in <stripper>.strip_next(B)`: the pieces the
+    strippers yield are sub-slices of their input (C01|S5 result-is-left-half, both cuts inside the input), so hi points into
+    [lo, lo + B.len()] — lo <= hi, hi - lo does not wrap and is at most B.len()."""
+    base, piece = _ptr_of(lo, cx), _ptr_of(hi, cx)
+    if base is None or piece is None or base.get("k") != "local":
+        return None
+    if piece.get("k") == "index" and hir.simp(piece["i"]).get("k") == "struct":
+        piece = _res_local(piece["e"], cx)
+    if piece.get("k") != "local":
+        return None
+    for m in hir.walk(body["hir"]):
+        fl = hir.for_loop(m) if m.get("k") == "match" and m.get("src") == "ForLoopDesugar" else None
+        if fl and fl[0].get("k") == "pbind" and fl[0].get("id") == piece.get("id"):
+            it = hir.simp(fl[1])
+            if it.get("k") == "call" and hir.callee(it) in SUBSLICE_YIELDERS and len(it["args"]) == 2:
+                src = hir.peel(it["args"][1])
+                if src.get("k") == "local" and src.get("id") == base.get("id"):
+                    return f"`{piece['name']}` is a piece strip_next yields from `{base['name']}` (a sub-slice of it: C01|S5)"
+    return None
+
+
 def discharge(site, cx, body):
     """→ (rule name, explanation) or None"""
     n = site["node"]
@@ -304,6 +348,33 @@ def discharge(site, cx, body):
     why = unreachable(frames, cx, n)
     if why:
         return "D-unreachable", why
+    if kind in ("call:panic_fmt", "call:panic"):
+        # a debug_assert!(base.as_ptr() <= piece.as_ptr()) between a slice and a piece of it
+        for f in frames:
+            if f.get("kind") == "if":
+                c = hir.simp(f["expr"])
+                neg = not f["val"]
+                while c.get("k") == "un" and c.get("op") == "Not" and "callee" not in c:
+                    c, neg = hir.simp(c["e"]), not neg
+                if neg and c.get("k") == "bin" and c.get("op") in ("Le", "Ge"):
+                    lo, hi = (c["l"], c["r"]) if c["op"] == "Le" else (c["r"], c["l"])
+                    w_ = subslice_pointers(lo, hi, cx, body)
+                    if w_:
+                        return "D-subslice-pointers", f"the assertion compares the start of a slice with the start of a piece of it: {w_}"
+    if kind == "Overflow(Sub)" and n.get("k") == "bin":
+        w_ = subslice_pointers(n["r"], n["l"], cx, body)
+        if w_:
+            return "D-subslice-pointers", f"pointer difference inside one slice: {w_}"
+    if kind == "call:index" and hir.simp(n["i"]).get("k") == "struct" and hir.last_seg(hir.simp(n["i"])["path"].get("path")) in ("RangeTo", "Range"):
+        f_ = {x["name"]: x["e"] for x in hir.simp(n["i"])["fields"]}
+        end = _res_local(f_.get("end"), cx) if "end" in f_ else None
+        start_ok = "start" not in f_ or hir.lit_val(f_["start"]) == 0
+        if start_ok and isinstance(end, dict) and end.get("k") == "bin" and end.get("op") == "Sub" and "callee" not in end:
+            w_ = subslice_pointers(end["r"], end["l"], cx, body)
+            b_ = _res_local(n["e"], cx)
+            base = _ptr_of(end["r"], cx)
+            if w_ and base is not None and b_.get("k") == "local" and b_.get("id") == base.get("id"):
+                return "D-subslice-pointers", f"the end of the range is the offset of a piece inside the indexed slice itself: {w_}"
     refine = panics.refinements(frames, cx, n)
     mac = site.get("mac") or []
     if kind == "BoundsCheck":
